@@ -542,6 +542,11 @@ func (o *c05Oracle) value(t *c05Typ, f *c05Fld, v *c05JV, fv reflect.Value, pos 
 		if len(v.L) == 0 {
 			o.class("empty-array")
 		}
+		if t.E.D && !t.E.P && t.E.K == "bool" && len(v.L) > 0 {
+			// []DefinedBool: a decoded bool is not assignable to the element type, the code answers
+			// with a type-mismatch error (allowed; numbers and strings go through setValue and work)
+			o.unspec("defined-bool-element")
+		}
 		if len(v.L) >= 255 {
 			o.class("size:array>=255")
 		}
@@ -568,6 +573,10 @@ func (o *c05Oracle) value(t *c05Typ, f *c05Fld, v *c05JV, fv reflect.Value, pos 
 		if v.T != "obj" {
 			o.unspec("illtyped-map")
 			return
+		}
+		if t.DK {
+			// a defined key type (map[Key]T): the code rejects it (string keys are not assignable): allowed
+			o.unspec("defined-map-key")
 		}
 		seen := map[string]int{}
 		for i := range v.M {
@@ -613,7 +622,7 @@ func (o *c05Oracle) value(t *c05Typ, f *c05Fld, v *c05JV, fv reflect.Value, pos 
 			}
 			var ev reflect.Value
 			if fv.IsValid() {
-				ev = fv.MapIndex(reflect.ValueOf(m.K))
+				ev = fv.MapIndex(reflect.ValueOf(m.K).Convert(fv.Type().Key()))
 				if !ev.IsValid() {
 					o.mismatch("", "%s: key %q of the document missing in the field", p, m.K)
 				}
